@@ -711,8 +711,8 @@ func init() {
 			"Abstract interpretation only; nothing is executed. Domain: defined challenge formats / password hashes (others are documented as lenient); user-defined Suite implementations excluded by the property. " +
 			"R14.7 HexInputToOCRA sets each field from the hex bytes of its own argument (an omitted field stays nil).",
 		assume:   []string{"enumerators outside the defined ChallengeFormat / PasswordHashAlgorithm constants are outside the property's domain"},
-		quick:    []Config{CfgNative},
-		thorough: []Config{CfgNative, Cfg386},
+		quick:    []Config{CfgNative, CfgWasm},
+		thorough: []Config{CfgNative, CfgWasm, Cfg386},
 		run: func(c *Check, w *World) {
 			tb := NewTB(w)
 			ruleInputAdmission(c, w, tb, c.Tier == "thorough")
